@@ -76,8 +76,3 @@ Definition scan (ss : list stream) : option (list N) :=
   loop (S (length (concat ss))) (isort hkey ss) [].
 End Scan.
 
-Eval vm_compute in scan (fun _ => 2%nat)
-  [ [(1,true);(3,true);(5,false);(5,true)]; [(3,true);(4,true);(5,true)]; [(1,false);(4,true)] ].
-(* compact-like: conj 1 has size 0 (need 1), conj 10.. have size 2 *)
-Eval vm_compute in scan (fun c => if c <? 10 then 1%nat else 2%nat)
-  [ [(1,true);(2,true)]; [(2,false);(10,true);(11,true)]; [(11,true);(12,true)] ].
